@@ -26,3 +26,11 @@ Ltac jac unfold_all unfH :=
   intros; cbv [is_jacobian all_upto];
   repeat (match goal with |- _ /\ _ => split | |- True => exact I end);
   unfold_all; one unfH.
+
+(* the same for the large instances (N = 3 with a symbolic fourth-order parameter): `timeout` bounds all the entries of one
+   lemma together, so the budget is a parameter; the definitions are unfolded lazily (only the entry looked at is expanded) *)
+Tactic Notation "jac_t" integer(T) tactic3(lazy_unfold) tactic3(unfH) :=
+  intros; cbv [is_jacobian all_upto];
+  repeat (match goal with |- _ /\ _ => split | |- True => exact I end);
+  lazy_unfold;
+  timeout T (auto_derive; [ nz unfH | (field_simplify_eq; [ ring [sqrt2_sq] | nz unfH .. ]) ]).
